@@ -146,6 +146,7 @@ func checkC08(c *Ctx) {
 		r.OK("R08.6", "backends", "no in-place mutation of published entries, no unprotected storage field")
 	}
 	c.c08RangeVarAddress()
+	c.c08MapSwapUnderWalk()
 	// R08.2 for the janitor: an entry is deleted by deleteExpired in the critical section that examined it (C11 R11.2)
 	for _, b := range backends {
 		b := b
@@ -254,6 +255,76 @@ func (c *Ctx) c08RangeVarAddress() {
 	})
 	if !bad {
 		r.OK("R08.4", "package:range-variable-address", fmt.Sprintf("%d range loops, no address of a range variable escapes", n))
+	}
+}
+
+// c08MapSwapUnderWalk: Walk ranges over a shard's map and drops the shard lock around every callback; the range statement evaluated
+// the map once, so the walk goes on over *that* map. It stays a walk over the live shard only because nobody ever installs another
+// map in the shard: an operation that replaces the map (instead of deleting from it) leaves a paused Walk iterating the detached old
+// map — it then reports entries that a completed DeleteAll removed and misses everything written since. When Walk does not drop the
+// lock inside the range (snapshot form), replacing the map is fine.
+func (c *Ctx) c08MapSwapUnderWalk() {
+	r := c.R
+	info := c.Pkg.TypesInfo
+	for _, b := range backends {
+		if !b.Sharded {
+			continue
+		}
+		run := c.bk(b, b.Name+".Walk", false)
+		if run.err != nil {
+			r.Unknown("R08.4", b.Name+".Walk", run.err.Error())
+			continue
+		}
+		drops := false
+		for _, p := range run.paths {
+			for _, g := range iterations(p) {
+				if !g.overData {
+					continue
+				}
+				for _, ev := range g.events {
+					if ev.Kind == pw.EvLock && (ev.Op == "RUnlock" || ev.Op == "Unlock") {
+						drops = true
+					}
+				}
+			}
+		}
+		if !drops {
+			r.OK("R08.4", b.Name+":map-identity", "Walk does not release the shard lock inside its range over the shard's map")
+			continue
+		}
+		bucket := "hashedBucket"
+		if b.Entry == "TraitEntryOf" {
+			bucket = "hashedBucketOf"
+		}
+		bad := false
+		c.eachFuncDecl(func(fd *ast.FuncDecl, fn *types.Func) {
+			name := strings.TrimPrefix(pw.FuncName(fn), "cache.")
+			if constructors[name] || strings.HasPrefix(name, "New") {
+				return
+			}
+			ast.Inspect(fd.Body, func(x ast.Node) bool {
+				as, ok := x.(*ast.AssignStmt)
+				if !ok {
+					return true
+				}
+				for _, l := range as.Lhs {
+					sel, ok := ast.Unparen(l).(*ast.SelectorExpr)
+					if !ok {
+						continue
+					}
+					sl := info.Selections[sel]
+					if sl == nil || sl.Kind() != types.FieldVal || selFieldName(sl) != "data" || namedTypeName(sl.Recv()) != bucket {
+						continue
+					}
+					bad = true
+					r.Bad("R08.4", name, "shard-map-replaced-under-walk", c.Pos(as.Pos()), "a shard's map is replaced outside construction while Walk releases the shard lock inside its range over that map: a paused Walk continues over the detached old map (reports entries a completed DeleteAll removed, misses later writes)", nil)
+				}
+				return true
+			})
+		})
+		if !bad {
+			r.OK("R08.4", b.Name+":map-identity", "the shard maps are installed at construction only; Walk's lock-dropping range stays on the live map")
+		}
 	}
 }
 
